@@ -13,6 +13,8 @@ pub struct TypeEntry {
     pub is_dec: bool,
     pub shape: Shape,
     pub gen_kinds: Vec<(Kind, GenClass)>,
+    /// generator leaves of the identity-like value (zero vector, identity rotation, unit scale)
+    pub identity_gen: Vec<u64>,
     pub leaf_kinds: Vec<Kind>,
     pub faithful: bool,
     pub run: fn(&Plan, RunOpts) -> Outcome,
@@ -39,7 +41,12 @@ fn entry<T: Subject>(family: &'static str) -> TypeEntry {
     let mut leaf_kinds = Vec::new();
     shape.leaf_kinds(&mut leaf_kinds);
     let name = T::type_name();
+    let mut ident = Vec::new();
+    T::identity(&mut ident);
+    let identity_gen: Vec<u64> = gen_kinds.iter().zip(ident.iter()).map(|((k, _), n)| small_value(*k, *n)).collect();
+    assert_eq!(identity_gen.len(), gen_kinds.len(), "identity leaves of {}", name);
     TypeEntry {
+        identity_gen,
         is_dec: is_decomposed_name(&name),
         name,
         family,
